@@ -100,16 +100,16 @@ def gen_ninja(units):
                 objs.append(o)
             c["_libobjs"] = objs
             # kit main (rapidcheck driver) -- independent of /repo
+            # the driver and the detsched runtime are compiled WITHOUT the shim macros
+            rflags = flags.replace("-include %s/detsched/shim.hpp" % VERIF, "")
             mo = os.path.join(d, "kit", "main.o")
-            out.append("build %s: cxx %s\n  cxx = %s\n  flags = %s\n" % (_esc(mo), _esc(os.path.join(VERIF, "kit/main.cpp")), c["cxx"], flags))
+            out.append("build %s: cxx %s\n  cxx = %s\n  flags = %s\n" % (_esc(mo), _esc(os.path.join(VERIF, "kit/main.cpp")), c["cxx"], rflags))
             c["_main"] = mo
             mo2 = os.path.join(d, "kit", "main_fuzz.o")
-            out.append("build %s: cxx %s\n  cxx = %s\n  flags = %s -DVK_LIBFUZZER=1\n" % (_esc(mo2), _esc(os.path.join(VERIF, "kit/main.cpp")), c["cxx"], flags))
+            out.append("build %s: cxx %s\n  cxx = %s\n  flags = %s -DVK_LIBFUZZER=1\n" % (_esc(mo2), _esc(os.path.join(VERIF, "kit/main.cpp")), c["cxx"], rflags))
             c["_main_fuzz"] = mo2
             if c.get("shim"):
                 ro = os.path.join(d, "kit", "detsched_runtime.o")
-                # the runtime itself is compiled WITHOUT the shim macros
-                rflags = flags.replace("-include %s/detsched/shim.hpp" % VERIF, "")
                 out.append("build %s: cxx %s\n  cxx = %s\n  flags = %s\n" % (_esc(ro), _esc(os.path.join(VERIF, "detsched/runtime.cpp")), c["cxx"], rflags))
                 c["_rt"] = ro
         if (cfg, u.name) in seen_bin:
